@@ -1,6 +1,6 @@
 """C11 - only the documented extent of caller buffers is read or written."""
 ID = "C11"
-VARIANTS = ["san", "simd", "sse2"]
+VARIANTS = ["san", "simd", "sse2", "sanp"]
 VARIANT_ALIAS = {"sse2": "simd"}
 ENV = {"sse2": {"JSIMD_FORCESSE2": "1"}}
 RULE = ("every caller buffer is an mmap'ed region whose documented last byte (or first byte) touches a PROT_NONE page, so an access one byte "
@@ -32,6 +32,10 @@ def gen_ops(rng, tier):
         ops.append("g11d %d %d %d %d %d %d %d %d %d %d %d %d" % (rng.choice([0, 1, 2, 3, 4, 5, 6, 2, 1]), rng.choice([rng.randint(1, 70), rng.randint(1, 40), 16, 32, 33, 31]), rng.randint(1, 30),
                                                            rng.randrange(1 << 30), rng.randrange(12), rng.randrange(16), rng.choice([0, 0, 1, 2, 3, 7, 40]), rng.randrange(2), rng.randrange(2),
                                                            rng.choice([0, 0, 0] + list(range(1, 40))), prec, rng.randrange(4)))
+    # call history: cropping region set under a scaling factor of 1/2, decompression at another one (flag bit 2)
+    for i in range(1500 if big else 200):
+        ops.append("g11d %d %d %d %d %d %d %d %d %d %d 8 %d" % (rng.choice([0, 1, 2, 2, 2, 4, 5, 6]), rng.choice([33, 40, 48, 64, 70]), rng.randint(9, 30), rng.randrange(1 << 30),
+                                                              rng.randrange(12), rng.choice([8, 8, 8, 9, 11, 13, 15]), rng.choice([0, 0, 1, 7]), rng.randrange(2), rng.randrange(2), rng.randint(1, 39), 4 + rng.randrange(4)))
     for i in range(4000 if big else 500):
         prec = rng.choice([8, 8, 8, 12, 16, rng.randint(2, 16)])
         ll = 1 if prec not in (8, 12) else rng.randrange(2)
